@@ -18,6 +18,7 @@ import numpy as np
 
 from . import argforms_a as af
 from . import c05, qc
+from . import callshape as cs
 from .common import bits, unbits
 from .qc import torch
 
@@ -31,6 +32,8 @@ REQUIRED_THEOREMS = [
     "C02_diagonal", "C02_trace", "C02_normalization_pos", "C02_call_forms", "C02_rhoDiag_eq_rho_diag", "C02_diagonal_sampled",
     "C02_NZ_of_x_ne_zero", "C02_NZ_of_amp_off_hyperplanes", "C02_posSemidef_of_x_ne_zero", "C02_posSemidef_of_amp_off_hyperplanes",
     "C02_expand_flag", "C02_expand_flag_partial_trace",   # round 4: `expand` as the object the caller passed
+    # extension round 2: the call forms as the code computes them (rank tests, unsqueeze_, broadcasting) are theorems
+    "C02_call_forms_single", "C02_call_forms_matrix", "C02_call_forms_paired", "C02_call_forms_mixed", "C02_call_forms_outcome", "C02_call_forms_pointwise_defs",
 ]
 THEOREMS = {
     "rho": "C02_rho_eq_partial_trace (+ C02_hermitian, C02_posSemidef, C02_call_forms)",
@@ -42,7 +45,11 @@ EXTRA_TRUSTED = [
     "C02: partial-trace and positive-semidefinite theorems carry the guard NZ (no auxiliary unit with 1+e^{x+iy}=0, "
     "where Real.log 0 = 0 differs from the float log 0 = -inf); the excluded point is probed on the real code (nz-probe)",
 ]
-RULE = ("case = (n, h, a, scale, amplitude-net params, phase-net params, alternative phase aux bias, 1-D pairs); every weight/bias "
+RULE = ("CALL FORMS AS WRITTEN (extension round 2): per run 3 (thorough: 8) random models (n,h,a <= 3, scale in {0.1,1,3}) x every rank combination v in {vector, batch B=1..3} x "
+        "vp in {None, vector, batch B'=1..3} x expand in {True, False} on random 0/1 rows with v != vp: rho / pi / gamma(+1, amplitude net) / gamma(-1, phase net) of the REAL state against "
+        "Density.rhoCall / piCall / PRBM.gammaCall (accepted-or-refused, exact result shape, entries); the forms the quantifier names (both batches with expand=True, equal-size batches "
+        "or vp=None with expand=False, both 1-D) at property level, mixed ranks / unequal batch sizes at aux level; "
+        "case = (n, h, a, scale, amplitude-net params, phase-net params, alternative phase aux bias, 1-D pairs); every weight/bias "
         "= scale*N(0,1), scale in {0,0.1,1,3,10,30}, phase aux bias 0 in half of the cases and non-zero in the other half; all "
         "4^n pairs of basis states in the expand=True (full matrix, plus a rectangular sub-batch), expand=False (paired) forms, a "
         "seeded subset of pairs in the 1-D form; exp-domain points (rho, probability, normalization) only when every exponent "
@@ -777,6 +784,91 @@ def callshape_probe(ctx):
                                   sig="callshape/model-elements")
 
 
+# ------------------------------------------------------------------ call forms as written (extension round 2)
+CALLFORM_THEOREMS = {"single": "C02_call_forms_single", "matrix": "C02_call_forms_matrix", "paired": "C02_call_forms_paired",
+                     "mixed": "C02_call_forms_mixed / C02_call_forms_outcome", "paired-broadcast": "C02_call_forms_paired (pairedBatch) / C02_call_forms_outcome"}
+
+
+def callform_class(vlead, vplead, expand):
+    """which theorem / level a rank combination belongs to: the property's quantifier names "expand=True / expand=False / 1-D call forms"
+    (both arguments batches resp. both 1-D); mixed ranks and unequal batch sizes with expand=False are outside it (aux)"""
+    w = vlead if vplead is None else vplead
+    if not vlead and not w:
+        return "single", "property"
+    if vlead and w:
+        if expand:
+            return "matrix", "property"
+        return ("paired", "property") if vlead == w else ("paired-broadcast", "aux")
+    return "mixed", "aux"
+
+
+def callform_case(ctx, case):
+    """rho / pi / gamma of the REAL state on tensor arguments of one rank combination against the transcription of the code
+    (Density.rhoCall / piCall / PRBM.gammaCall through op c02.callform): accepted-or-refused, result shape, entries."""
+    n, h, a, am, ph, expand = case["n"], case["h"], case["a"], case["am"], case["ph"], case["expand"]
+    ctx.current_case = case
+    st = qc.make_density(n, h, a, am, ph)
+    v = torch.tensor(case["v"]["rows"], dtype=torch.double).reshape(*case["v"]["lead"], n)
+    vp = None if case["vp"] is None else torch.tensor(case["vp"]["rows"], dtype=torch.double).reshape(*case["vp"]["lead"], n)
+    cls, level = callform_class(case["v"]["lead"], None if vp is None else case["vp"]["lead"], expand)
+    thm = CALLFORM_THEOREMS[cls]
+    ctx.case(case, nontrivial=all(any(x != 0 for x in am[k]) for k in ("b", "c", "d")),
+             sample={"callform": cls, "v": case["v"]["lead"], "vp": None if vp is None else case["vp"]["lead"], "expand": expand})
+    ctx.count(f"callform/{cls}/expand={expand}" + ("/vp=None" if vp is None else ""))
+    if vp is not None and list(v.shape) == list(vp.shape):
+        ctx.count("callform: v != vp" if not torch.equal(v, vp) else "callform: v == vp")
+    calls = [("rho", "pair", lambda: st.rho(v, vp, expand=expand))]
+    if vp is not None:
+        calls += [("pi", "pair", lambda: st.pi(v, vp, expand=expand)),
+                  ("gamma_am_p", "scalar", lambda: st.rbm_am.gamma(v, vp, eta=1, expand=expand)),
+                  ("gamma_ph_m", "scalar", lambda: st.rbm_ph.gamma(v, vp, eta=-1, expand=expand))]
+    v0 = v.clone()
+    for fn, entry, f in calls:
+        impl = cs.impl_result(f, entry)
+        ctx.count(f"callform/{fn}: " + ("refused" if impl["refused"] else "accepted"))
+        if level == "property":
+            ctx.oracle("call form of the quantifier accepted", not impl["refused"], {**case, "fn": fn}, detail=impl.get("exc"),
+                       sig=f"callform/{fn}/{cls}/accepted", theorem=thm)
+        if ctx.driver is not None:
+            req = {"fn": fn, "n": n, "h": h, "a": a, "am": qc.pbits(am), "ph": qc.pbits(ph), "v": cs.arg(v), "expand": bool(expand),
+                   "vp": None if vp is None else cs.arg(vp)}
+            model = cs.model_result(ctx.driver.call("c02.callform", **req))
+            sc = float(np.max(np.abs(impl["data"]))) + 1e-300 if not impl["refused"] and impl["data"].size else 1.0
+            # pi alone is not a call form the property names; gamma / pi in the quantifier's forms localise (aux), rho carries the property
+            cs.compare(ctx, f"{fn} ({cls} form, expand={expand})", level if fn == "rho" else "aux", impl, model, {**case, "fn": fn}, thm,
+                       f"callform/{fn}/{cls}", scale=sc)
+    ctx.point("argument unmodified (call forms)", "aux", bool(torch.equal(v, v0)), True, case, exact=True, sig="callform/arg-modified")
+    if cls == "single" and vp is not None:
+        # the single-element form against the SAME pair as one entry of the implementation's own batched forms (independent of the model)
+        V, Vp = v.unsqueeze(0), vp.unsqueeze(0)
+        for fn, f1, fB in (("rho", lambda: st.rho(v, vp, expand=expand), lambda: st.rho(V, Vp, expand=True)),
+                           ("gamma_am_p", lambda: st.rbm_am.gamma(v, vp, eta=1, expand=expand), lambda: st.rbm_am.gamma(V, Vp, eta=1, expand=True)),
+                           ("gamma_ph_m", lambda: st.rbm_ph.gamma(v, vp, eta=-1, expand=expand), lambda: st.rbm_ph.gamma(V, Vp, eta=-1, expand=False))):
+            x1, xB = _np(f1()).ravel(), _np(fB()).ravel()
+            ctx.oracle("single-element form == the same pair in a batched form (v != v' included)",
+                       bool(x1.shape == xB.shape and np.all(np.abs(x1 - xB) <= 1e-9 * (np.abs(xB) + 1e-300) + 1e-12)), {**case, "fn": fn},
+                       detail={"single": x1.tolist(), "batched": xB.tolist()}, sig=f"callform/{fn}/single-vs-batched", theorem="C02_call_forms_single")
+
+
+def gen_callforms(ctx, thorough):
+    rng = ctx.rng
+    for _ in range(8 if thorough else 3):
+        n, h, a = rng.choice([1, 2, 3]), rng.choice([1, 2, 3]), rng.choice([1, 2, 3])
+        scale = rng.choice([0.1, 1.0, 3.0])
+        am = qc.rand_prbm_params(rng, n, h, a, scale)
+        ph = qc.rand_prbm_params(rng, n, h, a, min(scale, 1.0), d_zero=rng.random() < 0.5)
+        B = rng.choice([2, 3])
+        for vlead in ([], [B], [1]):
+            for vplead in (None, [], [B], [1], [5 - B]):
+                for expand in (True, False):
+                    v = cs.rand_tensor(rng, vlead, n)
+                    vp = None if vplead is None else cs.rand_tensor(rng, vplead, n)
+                    if vp is not None and n > 1 and vlead == vplead and torch.equal(v, vp):
+                        vp = 1.0 - vp     # v != vp: the two arguments must be told apart
+                    yield {"tag": "callform", "n": n, "h": h, "a": a, "scale": scale, "am": am, "ph": ph, "expand": expand,
+                           "v": {"lead": vlead, "rows": cs.rows_of(v)}, "vp": None if vp is None else {"lead": vplead, "rows": cs.rows_of(vp)}}
+
+
 # ------------------------------------------------------------------ generation
 
 def safe_eigvalsh(M):
@@ -887,6 +979,8 @@ def run(ctx):
     nz_probe(ctx)
     malformed(ctx)
     callshape_probe(ctx)
+    for case in gen_callforms(ctx, ctx.tier == "thorough"):
+        callform_case(ctx, case)
 
 
 def search(ctx):
@@ -907,5 +1001,7 @@ def replay(ctx, case):
         malformed(ctx)
     elif case.get("tag") == "callshape":
         callshape_probe(ctx)
+    elif case.get("tag") == "callform":
+        callform_case(ctx, case)
     else:
         one_case(ctx, case)
